@@ -47,6 +47,8 @@ func alphabet() []opDesc {
 	for _, ch := range chans {
 		ops = append(ops, opDesc{"watch", 0, ch}, opDesc{"unwatch", 0, ch})
 	}
+	// a plain status poll by the watcher (no "changes" field): it asks a question and changes nothing
+	ops = append(ops, opDesc{"poll", 0, "a/"})
 	// a filter on a sibling branch that must never show up
 	ops = append(ops, opDesc{"sub", 2, "b/"})
 	// the watcher is an ordinary client too: it can subscribe itself (and hears about it)
@@ -245,6 +247,12 @@ func (in *inst) Apply(i int) {
 			}
 		}
 		in.subs[o.C] = map[string]bool{}
+	case "poll":
+		resp, ok := c.Request("presence", map[string]interface{}{"key": in.w.key, "channel": o.Ch, "status": true})
+		if !ok || resp.Topic != "emitter/presence/" {
+			in.fail("status-refused", fmt.Sprintf("status request answered with %v", resp))
+			return
+		}
 	case "watch", "unwatch":
 		on := o.Kind == "watch"
 		resp, ok := c.Request("presence", map[string]interface{}{"key": in.w.key, "channel": o.Ch, "status": false, "changes": on})
